@@ -157,7 +157,7 @@ impl Gen {
             6 => format!("(getmut {k} {v})"),
             7 => "(push)".into(),
             8 => "(pop)".into(),
-            9 => format!("(multi ({} {}) 1)", self.rng.below(4), self.rng.below(4)),
+            9 => format!("({} ({} {}) 1)", if self.rng.chance(1, 3) { "multip" } else { "multi" }, self.rng.below(4), self.rng.below(4)),
             10 => format!("(set {k} {v})"),
             _ => format!("(tryget {k})"),
         }
@@ -253,7 +253,7 @@ fn main() {
 
     // 2. multi-borrow: every tuple of arity 2..8 over 2 types, 2..4 over 4 types, a fixed set over 8 types,
     //    each with every subset of the universe present (sampled for 8 types), flat and split over two scopes
-    let multi_case = |keys: &[u64], present: &[u64], split: bool| -> Vec<String> {
+    let multi_case1 = |keys: &[u64], present: &[u64], split: bool, panicking: bool| -> Vec<String> {
         let mut ops = vec![];
         if split {
             for &k in present.iter().filter(|k| *k % 2 == 0) { ops.push(ex(&format!("(ins {k} {})", 10 + k))); }
@@ -264,7 +264,7 @@ fn main() {
         } else {
             for &k in present { ops.push(ex(&format!("(ins {k} {})", 10 + k))); }
         }
-        ops.push(ex(&format!("(multi {} 1)", nats(keys.iter().cloned()))));
+        ops.push(ex(&format!("({} {} 1)", if panicking { "multip" } else { "multi" }, nats(keys.iter().cloned()))));
         ops.push("(locks)".into());
         ops
     };
@@ -276,8 +276,10 @@ fn main() {
             for t in tuples {
                 for mask in 0..(1u64 << uni) {
                     let present: Vec<u64> = (0..uni).filter(|k| mask >> k & 1 == 1).collect();
-                    emit(site, multi_case(&t, &present, false));
-                    if mask + 1 == 1 << uni || a.thorough { emit(site, multi_case(&t, &present, true)); }
+                    for pk in [false, true] {
+                        emit(site, multi_case1(&t, &present, false, pk));
+                        if mask + 1 == 1 << uni || a.thorough { emit(site, multi_case1(&t, &present, true, pk)); }
+                    }
                 }
             }
         }
@@ -285,16 +287,19 @@ fn main() {
     let mut rng = Sm::new(a.seed ^ 0x5151);
     for t in U8_TUPLES {
         let all: Vec<u64> = (0..8).collect();
-        emit("multi-u8", multi_case(t, &all, false));
-        emit("multi-u8", multi_case(t, &all, true));
-        for miss in 0..8u64 {
-            let present: Vec<u64> = (0..8).filter(|k| *k != miss).collect();
-            emit("multi-u8", multi_case(t, &present, false));
+        for pk in [false, true] {
+            emit("multi-u8", multi_case1(t, &all, false, pk));
+            emit("multi-u8", multi_case1(t, &all, true, pk));
+            for miss in 0..8u64 {
+                let present: Vec<u64> = (0..8).filter(|k| *k != miss).collect();
+                emit("multi-u8", multi_case1(t, &present, false, pk));
+            }
         }
         for _ in 0..(if a.thorough { 40 } else { 4 }) {
             let mask = rng.below(256);
             let present: Vec<u64> = (0..8).filter(|k| mask >> k & 1 == 1).collect();
-            emit("multi-u8", multi_case(t, &present, rng.chance(1, 2)));
+            let (sp, pk) = (rng.chance(1, 2), rng.chance(1, 2));
+            emit("multi-u8", multi_case1(t, &present, sp, pk));
         }
     }
 
